@@ -117,7 +117,7 @@ def gen_ints(chk):
 NEG = [-1, -2, -127, -128, -129, -2 ** 31, -2 ** 31 - 1, -2 ** 63, -2 ** 64, -2 ** 77 - 5]
 
 
-def neg_subprocess(values, timeout=20):
+def neg_subprocess(values, timeout=8):
     """Run VarInt.send / VarLong.send on negative values in a subprocess under a watchdog:
     a send that does not return within the time budget 'does not terminate'."""
     code = r'''
@@ -134,20 +134,21 @@ except Exception as e:
     print(json.dumps(['err', type(e).__name__]))
 '''
     out = {}
-    procs = []
+    hung = False
     for cname in ('VarInt', 'VarLong'):
         for v in values:
+            if hung:        # one non-terminating send is the finding; do not burn a watchdog period per value
+                continue
             p = subprocess.Popen([common.PY, '-B', '-c', code, str(v), cname], env=common.sub_env(),
                                  stdout=subprocess.PIPE, stderr=subprocess.PIPE)
-            procs.append((cname, v, p))
-    for cname, v, p in procs:
-        try:
-            o, _e = p.communicate(timeout=timeout)
-            out[(cname, v)] = json.loads(o.decode() or '["err","crash"]')
-        except subprocess.TimeoutExpired:
-            p.kill()
-            p.communicate()
-            out[(cname, v)] = ['hang']
+            try:
+                o, _e = p.communicate(timeout=timeout)
+                out[(cname, v)] = json.loads(o.decode() or '["err","crash"]')
+            except subprocess.TimeoutExpired:
+                p.kill()
+                p.communicate()
+                out[(cname, v)] = ['hang']
+                hung = True
     return out
 
 
@@ -236,7 +237,7 @@ def check_neg(chk, values):
         elif got[0] == 'ok' or got[1] != 'ValueError':
             chk.violation('send-negative', 'send:%s:%d' % (cname, v), {'case': {'cls': cname, 'n': v}, 'expected': exp, 'observed': got},
                           '%s.send(%d) gave %r; model: %r' % (cname, v, got, exp))
-    chk.sample('send-negative', {'n': values[0], 'observed': res[('VarInt', values[0])]}, k=1)
+    chk.sample('send-negative', {'n': values[0], 'observed': res.get(('VarInt', values[0]))}, k=1)
 
 
 def check_table(chk):
@@ -258,7 +259,7 @@ def run(chk):
     check_send(chk, gen_ints(chk))
     check_neg(chk, NEG)
     chk.assumptions += ['CPython integer and bytes semantics; struct.pack("B")',
-                        'negative sends are judged non-terminating when a 20 s watchdog expires']
+                        'negative sends are judged non-terminating when an 8 s watchdog expires']
 
 
 def replay(chk, rp):
